@@ -133,4 +133,9 @@ example (k : Nat) (hk : k < 94) : unmarshal 20 exEnv true 3 ((enc exVal).take k)
     (by have : (enc exVal).length = 94 := by decide
         omega)
 
+/-- The model treats an enum as a scalar of its base width everywhere (this is what the length checks that make a truncated enum field an error instead of an index panic rests on). The
+    regenerated fact says File.fixedSizes does so for EVERY enum, imported ones included (loop over f.Enums with
+    the single statement `out[en.Name] = fixedSizeTypes[en.SimpleType]`). -/
+theorem C06_enum_sizes_as_modelled : Facts.enumFixedSizeRule = "base-width" := by decide
+
 end Bebop
